@@ -152,7 +152,7 @@ def run(ctx, replay):
                 "--big", 4, "--big-n", 4000, "--wide", 6, "--kv", 60, "--seek", 10, "--findings", 4]
     else:
         args = ["--small-len", 3, "--small-keys", 2, "--small-triples", 2, "--rand", 120, "--rand-n", 60,
-                "--big", 1, "--big-n", 1500, "--wide", 1, "--kv", 10, "--seek", 3, "--findings", 1]
+                "--big", 1, "--big-n", 1500, "--wide", 1, "--kv", 10, "--seek", 3, "--findings", 3]
     summ, rc, _ = ctx.run_vdrive(["dict", "--seed", ctx.seed, "--out", tr, "--out-seek", trs, "--out-findings", trf,
                                   "--scratch", scr] + args, timeout=1200)
     for u in summ["unresolved"]:
